@@ -340,6 +340,15 @@ def bounded_cross_check(report, tier, seed):
                         exprs.append(o2(o1(v, c1), c2))
                         exprs.append(o2(c1, o1(v, c2)))
                         exprs.append(o2(o1(c1, v), c2))
+    # literals NEAR an identity or annihilator (the optimiser's rules must fire on exactly 0 and 1 only) and integer-valued
+    # floats next to the integers they equal
+    near = [ir.FloatLiteral(1e-13), ir.FloatLiteral(-1e-13), ir.FloatLiteral(1.0000000002), ir.FloatLiteral(0.9999999998), ir.FloatLiteral(1e-300), ir.FloatLiteral(2.0)]
+    for v in (ir.Variable("x"), ir.Variable("i")):
+        for o in arith3:
+            for c in near:
+                exprs.append(o(v, c))
+                exprs.append(o(c, v))
+                exprs.append(ir.Add(o(v, c), ir.Variable("x")))
     cmp_ops = [ir.Equal, ir.NotEqual, ir.GreaterThan, ir.LessThan, ir.GreaterThanOrEqual, ir.LessThanOrEqual]
     for o in cmp_ops:
         for c1 in lits[:4]:
